@@ -99,6 +99,10 @@ def units(tier):
     for tg, cs in (([2, 4], 10 ** 6), ([2, 4], 3), ([4, 2, 8], 10 ** 6)):
         for part in range(6):
             yield {"leg": "abort", "targets": tg, "chunksize": cs, "part": part, "of": 6}
+    # a second zoomify into an output path that already holds a multi-resolution file (other content / other base / other targets /
+    # the source edited in place in between): the file must be what the LAST call asked for
+    for k in range(5):
+        yield {"leg": "rerun", "k": k}
 
 
 def _varseq(R, unit, only):
@@ -199,6 +203,64 @@ def _judge_file(R, inner, out, bases, targets, cols=("count",)):
                     R.mismatch("derived-level!=coarsening-of-base", {**inner, "level": r}, "; ".join(msgs) or "no base divides it")
     except Exception as e:
         R.mismatch("judge-raises:" + type(e).__name__, inner, f"{e!s:.300}")
+
+
+RERUNS = [
+    # (first call: base, content, targets), (second call: base, content, targets)
+    ((1, "full", [2, 4]), (1, "checker", [2, 4])),          # same layout, other data
+    ((1, "full", [2, 4, 8]), (1, "full", [3])),             # fewer / other targets: levels 2, 4, 8 must be gone
+    ((2, "full", [4, 12]), (1, "off1", [3, 6])),            # another base resolution
+    ((1, "checker", [2]), (2, "full", [4])),                # base 1 must be gone
+]
+
+
+def _rerun(R, k, only):
+    import cooler
+    R.add("states")
+    R.add("traces")
+    out = scratch.fresh(".mcool")
+    try:
+        if k < len(RERUNS):
+            first, second = RERUNS[k]
+            inner = {"first": list(first), "second": list(second)}
+            R.ev(1, 1)
+            R.add("transitions", 2)
+            R.cls("rerun")
+            try:
+                cooler.zoomify_cooler(base_uri(first[0], first[1]), out, list(first[2]), chunksize=10 ** 6, columns=["count", "score"])
+                cooler.zoomify_cooler(base_uri(second[0], second[1]), out, list(second[2]), chunksize=10 ** 6, columns=["count", "score"])
+            except Exception as e:
+                R.mismatch("zoomify-raises:" + type(e).__name__, inner, f"{e!s:.300}")
+                return
+            _judge_file(R, inner, out, {second[0]: (base_uri(second[0], second[1]), base_bins(second[0]), base_pix(second[0], second[1]))}, second[2], ("count", "score"))
+            return
+        # the source is edited IN PLACE between two runs with identical arguments (chromosomes renamed, a bin column added, one
+        # pixel value changed): none of this touches the summary attributes of the source group
+        inner = {"first": "base 1, full, [2, 4]", "second": "same call after rename_chroms + new bin column + one changed pixel value in the source"}
+        R.ev(1, 1)
+        R.add("transitions", 2)
+        R.cls("rerun")
+        src = scratch.fresh(".cool")
+        try:
+            bins0, pix0 = base_bins(1), {kk: dict(v) for kk, v in base_pix(1, "full").items()}
+            cooler.create_cooler(src, build.bins_df(bins0), fx.frame(pix0), columns=["count", "score"], dtypes={"score": float}, ordered=True)
+            cooler.zoomify_cooler(src, out, [2, 4], chunksize=10 ** 6, columns=["count", "score"])
+            cooler.rename_chroms(cooler.Cooler(src), {"chr2": "II", "chr10": "X"})
+            with h5py.File(src, "r+") as f:
+                f["bins"].create_dataset("weight", data=np.array([0.5 + q / 8.0 for q in range(len(bins0))]))
+                a, b = f["pixels/count"][0], f["pixels/count"][1]
+                f["pixels/count"][0], f["pixels/count"][1] = b, a          # two values swapped: nnz and sum stay what they were
+            keys = sorted(pix0)
+            pix0[keys[0]]["count"], pix0[keys[1]]["count"] = pix0[keys[1]]["count"], pix0[keys[0]]["count"]
+            bins1 = [({"chr2": "II", "chr10": "X"}[c], s0, e0) for c, s0, e0 in bins0]
+            cooler.zoomify_cooler(src, out, [2, 4], chunksize=10 ** 6, columns=["count", "score"])
+            _judge_file(R, inner, out, {1: (src, bins1, pix0)}, [2, 4], ("count", "score"))
+        except Exception as e:
+            R.mismatch("zoomify-raises:" + type(e).__name__, inner, f"{e!s:.300}")
+        finally:
+            scratch.rm(src)
+    finally:
+        scratch.rm(out)
 
 
 def _abort(R, unit, only):
@@ -546,5 +608,7 @@ def run(unit, R, tier, only=None):
         _varseq(R, unit, only)
     elif leg == "abort":
         _abort(R, unit, only)
+    elif leg == "rerun":
+        _rerun(R, unit["k"], only)
     else:
         raise ValueError(leg)
